@@ -405,30 +405,33 @@ Proof.
   intros ch Hc. destruct ch as [|a [|b [|c [|d [|e r]]]]]; cbn [char_ok] in Hc; try discriminate Hc;
     cbn [decode_cp]; unfold in_range in Hc.
   - unfold encode_cp. rewrite Hc. reflexivity.
-  - assert (Ha : a mod 32 = a - 192) by (apply (mod_sub a 6 32); lia).
+  - assert (Hlo : 192 <= a /\ 128 <= b) by lia.
+    assert (Ha : a mod 32 = a - 192) by (apply (mod_sub a 6 32); lia).
     assert (Hb : b mod 64 = b - 128) by (apply (mod_sub b 2 64); lia).
-    rewrite Ha, Hb. unfold encode_cp.
+    rewrite Ha, Hb. clear Ha Hb. unfold encode_cp.
     destruct (_ <? 128) eqn:E1; [lia|]. destruct (_ <? 2048) eqn:E2; [|lia].
     destruct (digits2 (a - 192) (b - 128)) as [H1 H2]; [lia|]. rewrite H1, H2.
-    f_equal; [lia|f_equal; lia].
-  - assert (Ha : a mod 16 = a - 224) by (apply (mod_sub a 14 16); lia).
+    clear - Hlo. f_equal; [lia|f_equal; lia].
+  - assert (Hlo : 224 <= a /\ 128 <= b /\ 128 <= c) by lia.
+    assert (Ha : a mod 16 = a - 224) by (apply (mod_sub a 14 16); lia).
     assert (Hb : b mod 64 = b - 128) by (apply (mod_sub b 2 64); lia).
     assert (Hc' : c mod 64 = c - 128) by (apply (mod_sub c 2 64); lia).
-    rewrite Ha, Hb, Hc'. unfold encode_cp.
+    rewrite Ha, Hb, Hc'. clear Ha Hb Hc'. unfold encode_cp.
     destruct (_ <? 128) eqn:E1; [lia|]. destruct (_ <? 2048) eqn:E2; [lia|].
     destruct (_ <? 65536) eqn:E3; [|lia].
     destruct (digits3 (a - 224) (b - 128) (c - 128)) as [H1 [H2 H3]]; [lia|lia|]. rewrite H1, H2, H3.
-    f_equal; [lia|f_equal; [lia|f_equal; lia]].
-  - assert (Ha : a mod 8 = a - 240) by (apply (mod_sub a 30 8); lia).
+    clear - Hlo. f_equal; [lia|f_equal; [lia|f_equal; lia]].
+  - assert (Hlo : 240 <= a /\ 128 <= b /\ 128 <= c /\ 128 <= d) by lia.
+    assert (Ha : a mod 8 = a - 240) by (apply (mod_sub a 30 8); lia).
     assert (Hb : b mod 64 = b - 128) by (apply (mod_sub b 2 64); lia).
     assert (Hc' : c mod 64 = c - 128) by (apply (mod_sub c 2 64); lia).
     assert (Hd : d mod 64 = d - 128) by (apply (mod_sub d 2 64); lia).
-    rewrite Ha, Hb, Hc', Hd. unfold encode_cp.
+    rewrite Ha, Hb, Hc', Hd. clear Ha Hb Hc' Hd. unfold encode_cp.
     destruct (_ <? 128) eqn:E1; [lia|]. destruct (_ <? 2048) eqn:E2; [lia|].
     destruct (_ <? 65536) eqn:E3; [lia|].
     destruct (digits4 (a - 240) (b - 128) (c - 128) (d - 128)) as [H1 [H2 [H3 H4]]]; [lia|lia|lia|].
     rewrite H1, H2, H3, H4.
-    f_equal; [lia|f_equal; [lia|f_equal; [lia|f_equal; lia]]].
+    clear - Hlo. f_equal; [lia|f_equal; [lia|f_equal; [lia|f_equal; lia]]].
 Qed.
 
 Lemma decode_scalar : forall ch, char_ok ch = true -> is_scalar (decode_cp ch) = true.
